@@ -52,6 +52,9 @@ type ShapeCase struct {
 	EntryType    string   `json:"entryType"`
 	FinalIssuer  string   `json:"finalIssuer"`
 	ViaPreIssuer bool     `json:"viaPreIssuer"`
+	// the extended key usage list of the certificate that signed the leaf, in the order it is written
+	// (EntryShapes!SignerEkuSeq; empty: the certificate has no such extension)
+	SignerEkus []string `json:"signerEkus"`
 	// how notBefore / notAfter stand in the logged entry (EntryShapes!LoggedValidity) and the content octets of its
 	// serial number (0: not singled out)
 	Validity  []writtenTime `json:"validity"`
@@ -198,6 +201,41 @@ func (c ShapeCase) fp() string {
 	return fp
 }
 
+// KeyPurposeIds of EntryShapes!EkuSeq.
+var ekuOID = map[string]asn1.ObjectIdentifier{"ct": pki.OIDEKUCT, "any": pki.OIDEKUAny, "server": pki.OIDEKUServer, "client": pki.OIDEKUClient}
+
+// writtenEKUs reads the extended key usage list of a certificate off its DER with cryptobyte / encoding/asn1 only
+// (harness/ref.SplitCert; no certificate parser, in particular not the repository's): the purposes in the order they
+// are written, by the names of the specification, and whether the CT purpose is among them - which is what makes the
+// signer of a precertificate a precertificate signing certificate (RFC 6962 3.1).
+func writtenEKUs(der []byte) (list []string, hasCT bool, err error) {
+	parts, err := ref.SplitCert(der)
+	if err != nil {
+		return nil, false, err
+	}
+	list = []string{}
+	for i, oid := range parts.ExtOIDs {
+		if !bytes.Equal(oid, []byte{0x55, 0x1d, 0x25}) { // 2.5.29.37
+			continue
+		}
+		var purposes []asn1.ObjectIdentifier
+		if rest, err := asn1.Unmarshal(parts.ExtValues[i], &purposes); err != nil || len(rest) != 0 {
+			return nil, false, fmt.Errorf("extended key usage extension: %v", err)
+		}
+		for _, pu := range purposes {
+			name := pu.String()
+			for n, o := range ekuOID {
+				if o.Equal(pu) {
+					name = n
+				}
+			}
+			list = append(list, name)
+			hasCT = hasCT || pu.Equal(pki.OIDEKUCT)
+		}
+	}
+	return list, hasCT, nil
+}
+
 var quirkExt = map[string]pkix.Extension{
 	// subjectAltName with an iPAddress of 3 bytes
 	"ip3": {Id: asn1.ObjectIdentifier{2, 5, 29, 17}, Value: []byte{0x30, 0x05, 0x87, 0x03, 1, 2, 3}},
@@ -220,7 +258,7 @@ func TestShapes(t *testing.T) {
 	if err != nil {
 		t.Fatal(err)
 	}
-	rep := vh.NewReport("cctfe-shapes-"+prop, "every case of EntryShapes.tla (entry kind x issuance x submitted tail incl. a cross-signed twin of a trusted root x key type x non-fatal oddity x chain storage mode x trusted set x validity years on both sides of 1950 / 2000 / 2050 and 9999 x serial number / extension identifier forms) built, submitted to a real instance, sequenced, read back and decoded; non-trivial = distinct (kind, issuance, tail, oddity, storage class, validity years, field form)")
+	rep := vh.NewReport("cctfe-shapes-"+prop, "every case of EntryShapes.tla (entry kind x issuance x submitted tail incl. a cross-signed twin of a trusted root x key type x non-fatal oddity x chain storage mode x trusted set x validity years on both sides of 1950 / 2000 / 2050 and 9999 x serial number / extension identifier forms x the extended key usage list of the signing certificate: CT purpose alone / before / after / between anyExtendedKeyUsage and specific purposes, and lists without it) built, submitted to a real instance, sequenced, read back and decoded; non-trivial = distinct (kind, issuance, tail, oddity, storage class, validity years, field form)")
 	r1 := pki.NewRoot(pki.Opts{CN: "R1"})
 	r2 := pki.NewRoot(pki.Opts{CN: "R2", KeyType: "p384"})
 	nodes := map[string]*pki.Node{"R1": r1, "R2": r2}
@@ -299,12 +337,36 @@ func TestShapes(t *testing.T) {
 				o.NotBefore, o.NotAfter = c.Shape.Valid.NB.instant(), c.Shape.Valid.NA.instant()
 			}
 			serial := tbsFormOpts(c.Shape.Tbs, &o)
-			leaf := nodes[c.Submitted[1]].Issue(o)
+			// the certificate that signs the leaf: those of the extended-key-usage dimension are issued here, with the list
+			// of the specification written in its order
+			signer, known := nodes[c.Submitted[1]]
+			if !known {
+				so := pki.Opts{CN: c.Submitted[1] + " eku", IsCA: true}
+				for _, u := range c.SignerEkus {
+					so.EKUOIDs = append(so.EKUOIDs, ekuOID[u])
+				}
+				if len(so.EKUOIDs) == 0 || len(c.Submitted) < 3 {
+					t.Fatalf("harness: no certificate %s for %s", c.Submitted[1], c.fp())
+				}
+				signer = nodes[c.Submitted[2]].Issue(so)
+				nodes[c.Submitted[1]] = signer
+			}
+			// what is on the wire is what the specification wrote; whether the signer is a precertificate signing
+			// certificate is read off its DER, and that reading - not the model's word - goes into the expected entry
+			wrote, signerHasCT, err := writtenEKUs(signer.DER)
+			if err != nil || fmt.Sprint(wrote) != fmt.Sprint(c.SignerEkus) {
+				t.Fatalf("harness: %s carries the extended key usages %v (%v), the specification wrote %v", c.Submitted[1], wrote, err, c.SignerEkus)
+			}
+			viaPre := c.Shape.Kind == "precert" && signerHasCT
+			if viaPre != c.ViaPreIssuer {
+				t.Fatalf("harness / specification: %s: CT purpose in the signer's list %v, the specification says pre-issuer = %v", c.fp(), signerHasCT, c.ViaPreIssuer)
+			}
+			leaf := signer.Issue(o)
 			if c.Shape.Wire == "laxSerial" || c.Shape.Wire == "laxSerialTrailing" {
 				leaf = pki.NonMinimalSerial(leaf)
 			}
 			nodes["L"] = leaf
-			m := &made{c: c, serial: serial, sub: &Sub{ID: fmt.Sprintf("c%d", ci), Pre: c.Shape.Kind == "precert", Shape: c.fp(), PreIssuer: c.ViaPreIssuer}}
+			m := &made{c: c, serial: serial, sub: &Sub{ID: fmt.Sprintf("c%d", ci), Pre: c.Shape.Kind == "precert", Shape: c.fp(), PreIssuer: viaPre}}
 			for _, id := range c.Submitted {
 				m.sub.Chain = append(m.sub.Chain, nodes[id].DER)
 			}
@@ -328,7 +390,7 @@ func TestShapes(t *testing.T) {
 				case code == 200:
 					msg := "no RFC 6962 entry can be derived from the submitted octets"
 					path := append([][]byte{m.sub.Chain[0]}, m.pathDERs[1:]...)
-					if e, err := ref.EntryForChain(path, c.ViaPreIssuer); err == nil {
+					if e, err := ref.EntryForChain(path, viaPre); err == nil {
 						m.sub.Entry = e
 						msg = w.CheckSCT(m.sub, rsp, w.Ms(n))
 					}
@@ -340,7 +402,7 @@ func TestShapes(t *testing.T) {
 				}
 				continue
 			}
-			e, err := ref.EntryForChain(m.pathDERs, c.ViaPreIssuer)
+			e, err := ref.EntryForChain(m.pathDERs, viaPre)
 			if err != nil {
 				t.Fatalf("independent entry for %s: %v", c.fp(), err)
 			}
